@@ -20,10 +20,20 @@ def bounds(tier):
 
 
 def configs(tier, seed):
-    return OPS.configs_for("C15", tier, seed)
+    out = OPS.configs_for("C15", tier, seed)
+    # library-chosen common value when building from an array without one (C01's harness, C15's assertion only)
+    from harness import C01
+    for c in C01.configs(tier, seed):
+        if c["common"] == "omit" and c["back"] == "dtype" and len(c["pattern"]) > 0:
+            out.append(dict(op="from_array", c01=c))
+    return out
 
 
 def explore(cfg, eng, ctx):
+    if cfg["op"] == "from_array":
+        from harness import C01
+        C01.explore(cfg["c01"], eng, ctx, only="C15")
+        return
     OPS.run(cfg, eng, ctx, "C15")
 
 
